@@ -783,3 +783,73 @@ def reachable_bodies(facts, body, depth=3, include_closures=True, _seen=None):
         for cb in facts.closures_of(body):
             reachable_bodies(facts, cb, depth, include_closures, _seen)
     return _seen
+
+
+# ---------------------------------------------------------------------------
+# small path enumerator for bool-returning closures / functions
+
+
+def eval_bool_paths(body, limit=4000):
+    """enumerate acyclic normal paths entry->return; evaluate the bool result with constant propagation over
+    bool locals. Returns [(conds: [Cond], value)] with value in {True, False, None (not constant)}"""
+    out = []
+    succ = body.succ()
+    count = [0]
+
+    def val_of(env, op):
+        if op['k'] == 'const':
+            v = op['c'].get('v')
+            return v if isinstance(v, bool) else None
+        if op['k'] in ('copy', 'move') and not op['pl']['p']:
+            return env.get(op['pl']['l'])
+        return None
+
+    def walk(bb, env, conds, seen):
+        if count[0] > limit:
+            return
+        env = dict(env)
+        for s in body.blocks[bb]['st']:
+            if s['k'] != 'assign' or s['lhs']['p']:
+                continue
+            l = s['lhs']['l']
+            rv = s['rv']
+            if rv['k'] == 'use':
+                env[l] = val_of(env, rv['op'])
+            elif rv['k'] == 'un' and rv['op'] == 'Not':
+                v = val_of(env, rv['a'])
+                env[l] = (not v) if isinstance(v, bool) else None
+            else:
+                env[l] = None
+        t = body.blocks[bb]['t']
+        if t['k'] == 'return':
+            count[0] += 1
+            out.append((list(conds), env.get(0)))
+            return
+        if t['k'] == 'call' and not t['dest']['p']:
+            env[t['dest']['l']] = None
+        if t['k'] == 'switch':
+            v = val_of(env, t['discr']) if t['ty'] == 'bool' else None
+            edges = body.switch_edges(bb)
+            tgts = []
+            for val, tg in edges:
+                if tg not in tgts:
+                    tgts.append(tg)
+            for tg in tgts:
+                if tg not in succ[bb] or tg in seen:
+                    continue
+                if isinstance(v, bool):
+                    vals = [val for val, x in edges if x == tg]
+                    is_zero_edge = '0' in vals
+                    takes = (not v) if is_zero_edge and None not in vals else (v if None in vals and '0' not in vals else None)
+                    if takes is False:
+                        continue
+                    walk(tg, env, conds, seen | {tg})
+                else:
+                    walk(tg, env, conds + [Cond(body, bb, tg)], seen | {tg})
+            return
+        for s in succ[bb]:
+            if s not in seen:
+                walk(s, env, conds, seen | {s})
+
+    walk(0, {}, [], {0})
+    return out
